@@ -469,11 +469,13 @@ def annotate(nf, directives, kind):
             if n < 1 or n > len(loops):
                 raise ExtractError("anchor lost: loop %d" % n)
             lpos, lw, lob = loops[n - 1]
-            mm = re.compile(r'for\s+&([A-Za-z_][A-Za-z0-9_]*)\s+in\b').match(nf, lpos)
+            mm = re.compile(r'for\s+&([A-Za-z_][A-Za-z0-9_]*|\([A-Za-z0-9_, ]*\))\s+in\b').match(nf, lpos)
             if not mm:
-                raise ExtractError("refpat: loop %d is not `for &x in`" % n)
-            ops.replace(mm.start(1) - 1, mm.end(1), mm.group(1) + '__r', 'E5-refpat')
-            ops.insert(lob + 1, ' let %s = *%s__r;' % (mm.group(1), mm.group(1)), 'E5-refpat', prio=1)
+                raise ExtractError("refpat: loop %d is not `for &x in` / `for &(a, b) in`" % n)
+            pat = mm.group(1)
+            nm = pat if not pat.startswith('(') else 'tuple%d' % n
+            ops.replace(mm.start(1) - 1, mm.end(1), nm + '__r', 'E5-refpat')
+            ops.insert(lob + 1, ' let %s = *%s__r;' % (pat, nm), 'E5-refpat', prio=1)
         elif name in ('before', 'after'):
             ks, lit = arg.split('|', 1)
             k = int(ks.strip())
@@ -705,6 +707,9 @@ def generate(unit, repo):
             info['erasure_checked'] += 1
             info['functions'].append({'item': 'statement block in ' + binfo['fn'] + ': ' + binfo['first'], 'file': relpath, 'line': binfo['line']})
             info['extraction_drops'].append({'item': tag, 'E11_block': 'only the statements between the anchors are verified; the enclosing function %s is dropped' % binfo['fn']})
+            for r in binfo.get('rewrites', []):
+                r['item'] = tag
+                info['rewrites'].append(r)
             continue
         s, e = locate(src, m, selector)
         line = src.count('\n', 0, s) + 1
@@ -758,7 +763,8 @@ def generate_block(src, m, selector, directives):
             end += 1
         end = _stmt_end(nf, nm, end, cb)
     block = nf[j:end]
-    header = sig = top = ''
+    header = sig = top = attrs = ''
+    inner = []
     for (name, arg, text) in directives:
         if name == 'blocksig':
             header = arg.strip()
@@ -770,19 +776,34 @@ def generate_block(src, m, selector, directives):
             top = text
         elif name == 'tail':
             pass
+        elif name == 'attr':
+            if not re.match(r'^#\[verifier::(loop_isolation\(false\)|allow_complex_invariants|spinoff_prover|rlimit\(\d+\))\]$', arg.strip()):
+                raise ExtractError("attr not allowed: %s" % arg)
+            attrs += arg.strip() + '\n'
+        elif name in ('loop', 'refpat', 'before', 'after', 'rewrite', 'rewriteall', 'rewritere', 'rewritereall', 'ascribe'):
+            inner.append((name, arg, text))
         else:
             raise ExtractError("directive %s not allowed in extractblock" % name)
-    if not re.match(r'^fn \w+\(.*\)( -> .*)?$', header):
+    block_src = block
+    rewrites = []
+    if inner:
+        # the statements are annotated exactly like a function body (loop invariants, statement hints, recorded rewrites)
+        pre = 'fn __blk() {'
+        ann, rewrites = annotate(pre + block + '}', inner, 'fn')
+        if not (ann.startswith(pre) and ann.endswith('}')):
+            raise ExtractError("block annotation escaped the block")
+        block = ann[len(pre):-1]
+    if not re.match(r'^fn \w+(<[^()]*>)?\(.*\)( -> .*)?$', header):
         raise ExtractError("extractblock needs //@blocksig fn name(params) [-> ret]")
     tail = ''
     for (name, arg, text) in directives:
         if name == 'tail':
             tail = arg.strip()
-    gen = '/*@+*/' + header + '\n' + sig.rstrip() + '\n{\n' + top + '/*@-*/' + block + '/*@+*/\n' + tail + '\n}\n/*@-*/'
-    if squash(erase(gen)) != squash(block):
+    gen = '/*@+*/' + attrs + header + '\n' + sig.rstrip() + '\n{\n' + top + '/*@-*/' + block + '/*@+*/\n' + tail + '\n}\n/*@-*/'
+    if squash(erase(gen)) != squash(block_src):
         raise ExtractError("erasure check failed for block")
     line = src.count('\n', 0, s) + 1
-    return gen, {'fn': fsel, 'first': lit, 'line': line}
+    return gen, {'fn': fsel, 'first': lit, 'line': line, 'rewrites': rewrites}
 
 
 def verify_erasure(gen_text, unit, repo):
